@@ -1,7 +1,10 @@
-def _c20_post(tier, seed, dirs, goenv):
+def _c20_post(ctx):
     """Measured from this run's stats files: the enumeration tests (everything except the supplementary
     randomised TestC20LookupRandom) each marked their finite domain as completely enumerated."""
     import glob, json, os
+    if ctx.get("replay"):
+        return [], [], {}
+    dirs = ctx["dirs"]
     per = {}
     for f in glob.glob(os.path.join(dirs["stats"], "*.json")):
         with open(f) as fh:
@@ -61,7 +64,7 @@ PROPS["C20"] = {
              "TestC20OddMultiples": LIST(),
              "TestC20VectorTables": LIST(configs=["default"]),
              "TestC20LookupAll": LIST(),
-             "TestC20LookupRandom": T(3000, 200000),
+             "TestC20LookupRandom": T(3000, 100000),
          }},
         {"pkg": "curve/scalar", "configs": ["default", "purego", "force32bit"],
          "tests": {"TestC20ScalarConstants": LIST()}},
